@@ -22,6 +22,12 @@ def run(ctx, rep):
             rep.fail(sig, case, detail)
         else:
             other[prop] = other.get(prop, 0) + 1
+    from . import damage
+    for prop, sig, case, detail in damage.run_damage(ctx, rep):
+        if prop == "C06":
+            rep.fail(sig, case, detail)
+        else:
+            other[prop] = other.get(prop, 0) + 1
     rep.coverage_extra["failures_attributed_to_other_properties"] = other
 
 
